@@ -411,7 +411,16 @@ def run(ctx, use_model=True):
     try:
         n_docs = ctx.n(12, 80)
         for i in range(n_docs):
-            if i % 3 != 2:
+            if i % 6 == 1:
+                # long multi-byte content: any block-wise copying / decoding between the serializer's buffer and the destination
+                # must not depend on where a block boundary falls
+                doc = io_document(g)
+                unit = g.choice(["€", "é", "🙂", "a€", "漢é"])
+                doc.entity("ex:long%d" % i, {"ex:attr": unit * g.choice([2731, 4096, 8192, 10000, 21846]),
+                                              "prov:label": ("x" * g.rng.randint(0, 3)) + unit * g.choice([3000, 8191, 16385])})
+                fmts = ["json", "xml", "rdf", "provn"]
+                ctx.count("long-document")
+            elif i % 3 != 2:
                 doc = io_document(g)
                 fmts = ["json", "xml", "rdf", "provn"]
             else:
